@@ -486,6 +486,42 @@ func TestAlternativesWithConcatenatingNames(t *testing.T) {
 	}
 }
 
+// string literals with backslash escapes as handles of directives: the level holds the terminal the rules use
+func TestEscapedLiteralsAsHandles(t *testing.T) {
+	rec.Begin(t)
+	rec.Rule(rule)
+	if rec.Shard() != 0 {
+		t.Skip("seed independent: shard 0 only")
+	}
+	str := func(s string) *ref.RHS { return &ref.RHS{K: "str", Name: s} }
+	nt := func(s string) *ref.RHS { return &ref.RHS{K: "nt", Name: s} }
+	cat := func(s ...*ref.RHS) *ref.RHS { return &ref.RHS{K: "cat", Subs: s} }
+	for _, lits := range [][]string{{`\\`, `\"`}, {`a\"b`, `+`}, {`\\\\`, `\\`}, {`\"\"`, `\"`}, {`\+`, `\-`}} {
+		m := &ref.SpecModel{Name: "g", NameSemi: true}
+		body := &ref.RHS{K: "alt"}
+		for i, l := range lits {
+			m.Decls = append(m.Decls, &ref.Decl{Kind: "directive", Assoc: []string{"@left", "@right"}[i%2], Handles: []*ref.Handle{{Term: str(l)}}, Semi: i%2 == 0})
+			body.Subs = append(body.Subs, cat(nt("start"), str(l), nt("start")))
+		}
+		body.Subs = append(body.Subs, str("n"))
+		m.Decls = append(m.Decls, &ref.Decl{Kind: "rule", Name: "start", RHS: body, Semi: true})
+		src := m.Text()
+		rec.Case(src, true, "escaped_literals_as_handles")
+		if err := checkModel(m, src); err != nil {
+			rec.Fail(t, "model", input{Model: m, Spec: src}, "%v", err)
+		}
+		// the levels must be usable: every operator of the rule is declared, so the table is built
+		var terr error
+		if g := rec.Guard(func() {
+			if sp, err := spec.Parse("t.ebnf", ref.Source(src)); err == nil {
+				_, terr = sp.LALRParsingTable()
+			}
+		}); g == nil && terr != nil {
+			rec.Fail(t, "model", input{Model: m, Spec: src}, "every operator of the rule is listed in a directive, but the table is refused: %v\nspecification:\n%s", terr, src)
+		}
+	}
+}
+
 func TestReplay(t *testing.T) {
 	if !rec.IsReplay() {
 		t.Skip("not in replay mode")
